@@ -219,6 +219,20 @@ def run(ctx):
     c = island.random_instance(rng, fedjax, leaves=rng.choice([1, 2, 3]), dyadic=rng.random() < .7)
     if c is not None:
       cases.append(c)
+  # a fixed instance with a round whose cohort holds no example, after a round that built up server momentum: the server
+  # optimizer still runs on the zero mean update (FedRound's family parameter ApplyOnEmpty is TRUE for FedAvg)
+  fx = {'data': [[], [[2, 1]], [[0, -1], [4, 3]]], 'init': [island.R(-2), island.R(1)], 'copt': island.opt_spec('sgd', 1), 'sopt': island.opt_spec('mom', 0.5, 0.5),
+        'mu': island.R(0), 'rounds': 4, 'cohorts': [[2, 1], [1], [1, 3], [1, 1]]}
+  fxh = {'bs': 2, 'epochs': 1, 'steps': None, 'drop': False, 'seed': 1, 'skip': True}
+  fx['stream'] = island.real_streams(fedjax, island.datasets(fedjax, fx['data']), island.hparams(fedjax, fxh))
+  cases.append({'inst': fx, 'h': fxh, 'exact': False})
+  # "its own batch stream": the streams the oracle is fed with come from the real batching code; their SHAPE (number of
+  # batches, batch sizes) must be the documented one for every client
+  for ci, c in enumerate(cases):
+    for cl, (d, stq) in enumerate(zip(c['inst']['data'], c['inst']['stream'])):
+      prob = island.stream_shape_problem(c['h'], len(d), stq)
+      if prob:
+        ctx.violation('stream-shape', f'client {cl + 1} of instance {ci}: {prob}', replay={'hparams': c['h'], 'n': len(d), 'stream': stq})
   expected = island.oracle(ctx, [c['inst'] for c in cases], 'R')
   runs = []
   pmap_items = {2: [], 3: []}
@@ -259,8 +273,8 @@ def run(ctx):
       if not okp or any(np.isnan(got_p)):
         bad = ('params', f'round {r + 1}: parameters {got_p}, the definition gives {[str(island.frac(x)) for x in exp[r]]} = {want_p}')
         break
-      if rec['diag'][r] != sorted(inst['cohorts'][r]):
-        bad = ('diagnostics', f'round {r + 1}: diagnostics entries for clients {rec["diag"][r]}, cohort is {sorted(inst["cohorts"][r])}')
+      if rec['diag'][r] != sorted(set(inst['cohorts'][r])):
+        bad = ('diagnostics', f'round {r + 1}: diagnostics entries for clients {rec["diag"][r]}, cohort is {sorted(set(inst["cohorts"][r]))}')
         break
     if bad:
       ctx.violation(f'replay:{backend.split("/")[0]}:{bad[0]}', f'{bad[1]} (order={order}, backend={backend}, exact={c["exact"]}, hparams={c["h"]}, instance={inst})',
